@@ -124,6 +124,7 @@ func (f *fsm) run() {
 		// capture target state before peer coordination
 		toBefore := t.to
 
+		verifPoint("fsm.request", f)
 		// signal state transition to local peer manager for coordination with
 		// the "other" fsm.
 		select {
@@ -235,6 +236,7 @@ func (f *fsm) dialPeer() {
 		conn, err := dialer.DialContext(ctx, "tcp",
 			net.JoinHostPort(f.peer.config.RemoteAddress.String(),
 				strconv.Itoa(f.peer.options.port)))
+		verifPoint("dial.done", f)
 		dialResultCh <- &dialResult{
 			conn: conn,
 			err:  err,
@@ -804,6 +806,7 @@ func (u *updateMessageWriter) WriteUpdate(b []byte) error {
 	case <-u.closeCh:
 		return io.ErrClosedPipe
 	default:
+		verifPoint("write.update", u)
 		_, err := u.conn.Write(prependHeader(b, updateMessageType))
 		if err == nil {
 			select {
@@ -958,6 +961,7 @@ func (f *fsm) established() (fsmState, error) {
 	}
 
 	to, err := established()
+	verifPoint("established.teardown", f)
 	f.cleanupConnAndReader()
 	f.holdTimer.Stop()
 	f.keepAliveTimer.Stop()
